@@ -302,7 +302,10 @@ def gen_parent_case(g, cid, opts=None):
             if cands and g.chance(0.2):
                 # entries written in another order than the members' indices (same-typed, so that everything still compiles)
                 n = r.choice(cands)
-                n.permuted = True
+                # the written order is part of the case (both twins get the same one)
+                n.permuted = list(range(len(n.leaves)))
+                while n.permuted == list(range(len(n.leaves))):
+                    r.shuffle(n.permuted)
                 for l in n.leaves:
                     l["ty"] = "i32"
                 fc.flags.add("parent_tuple_permuted")
@@ -332,12 +335,9 @@ def parent_args(g, node, typed):
     for fn, ch in node.children:
         ents.append(f"[parent({parent_args(g, ch, typed)})] {fn}" + (f": {ch.ty}" if typed else ""))
     if node.tuple:
-        if getattr(node, "permuted", False):
+        if getattr(node, "permuted", None):
             k = len(node.leaves)
-            head = ents[:k]
-            while head == ents[:k]:
-                r.shuffle(head)
-            ents[:k] = head
+            ents[:k] = [ents[i] for i in node.permuted]
         return ", ".join(ents)
     r.shuffle(ents)
     # a single bare identifier would be read as a dedicated type: keep a bracketed entry first in that case
